@@ -270,8 +270,52 @@ def run(ctx):
                 w, _ = pool.fresh((5, 8), "w8a0")
                 return F.linear(input=a, weight=w, bias=None)
 
-            for dname, prog in (("rms_norm_packed_half", d_rms_norm), ("slice_assign", d_slice_assign), ("copy_pt_pa", d_copy_pt_pa),
-                                ("copy_pa_pt", d_copy_pa_pt), ("linear_keywords", d_linear_keywords)):
+            directed = [("rms_norm_packed_half", d_rms_norm), ("slice_assign", d_slice_assign), ("copy_pt_pa", d_copy_pt_pa),
+                        ("copy_pa_pt", d_copy_pa_pt), ("linear_keywords", d_linear_keywords)]
+
+            # a plain 0-dim / one-element numerator over a quantized denominator (division does not commute)
+            def mk_rdiv(kind, shape, sk, spell):
+                def prog(pool):
+                    q, _ = pool.fresh(shape, kind)
+                    s0 = programs.scalar(pool.rng, sk)
+                    return s0 / q if spell == "op" else (torch.div(s0, q) if isinstance(s0, torch.Tensor) else torch.true_divide(s0, q))
+                return prog
+
+            for kind in ("act8", "acte4", "w8a0"):
+                for shape in ((), (4,), (3, 5)):
+                    if kind.startswith("w") and len(shape) < 2:
+                        continue
+                    for sk in range(programs.N_SCALAR_KINDS):
+                        for spell in ("op", "fn"):
+                            directed.append((f"rdiv_{kind}_{len(shape)}d_s{sk}_{spell}", mk_rdiv(kind, shape, sk, spell)))
+
+            # cat / stack of per-axis operands that share their scales (the same tensor, its clone, its detach), every dim
+            def mk_join(kind, dim, fn, partner):
+                def prog(pool):
+                    a, _ = pool.fresh((4, 6), kind)
+                    b = {"self": lambda: a, "clone": lambda: a.clone(), "detach": lambda: a.detach()}[partner]()
+                    return fn([a, b], dim)
+                return prog
+
+            for kind in ("w8a0", "w8a-1", "wf8a0", "wf8a-1"):
+                for dim in (0, 1, -1, -2):
+                    for fname, fn in (("cat", torch.cat), ("stack", torch.stack)):
+                        for partner in ("self", "clone", "detach"):
+                            directed.append((f"{fname}_{kind}_dim{dim}_{partner}", mk_join(kind, dim, fn, partner)))
+
+            # stepped slices along and across the kept axis
+            def mk_slice(kind, sl):
+                def prog(pool):
+                    a, _ = pool.fresh((8, 10), kind)
+                    return a[sl]
+                return prog
+
+            for kind in ("w8a0", "w8a-1", "wf8a0", "wf8a-1", "act8"):
+                for si, sl in enumerate([slice(None, None, 2), slice(1, None, 3), slice(4, None, 4), (Ellipsis, slice(None, None, 2)),
+                                         (slice(None), slice(1, 8, 3)), (slice(None, None, 2), slice(None, None, 3)), slice(-3, None)]):
+                    directed.append((f"slice_{kind}_{si}", mk_slice(kind, sl)))
+
+            for dname, prog in directed:
                 for wd in (torch.float16, torch.float32):
                     k += 1
                     if not ctx.mine(k):
